@@ -9,6 +9,7 @@ import (
 	"regexp"
 	"sort"
 	"strings"
+	"time"
 	"syscall"
 )
 
@@ -148,6 +149,12 @@ func (w *World) Step(pre *Snapshot, op Op) StepOut {
 	if op.Kind == "chop_newline" {
 		return w.stepChop(pre, op)
 	}
+	if op.Kind == "debris" {
+		return w.stepDebris(pre, op)
+	}
+	if op.Kind == "redate" {
+		return w.stepRedate(pre, op)
+	}
 	out := w.stepMain(pre, op)
 	if w.Twin != nil && out.Post != nil {
 		out.Viol = append(out.Viol, w.stepTwin(op, &out)...)
@@ -205,6 +212,9 @@ func (w *World) stepMain(pre *Snapshot, op Op) StepOut {
 	post, err := TakeSnapshot(w.Root)
 	if err != nil {
 		out.Viol = append(out.Viol, Violation{home, "store unreadable after the command: " + err.Error()})
+		if out.Accepted && !op.NoJSON && reply != nil && op.Kind != "compact" && op.Kind != "init" {
+			out.Viol = append(out.Viol, Violation{"C16", "the command reported success with a JSON value, but the immediately following read shows nothing of it - the store is unreadable: " + clip(err.Error(), 200)})
+		}
 		return out
 	}
 	out.Post = post
@@ -237,7 +247,7 @@ func (w *World) stepMain(pre *Snapshot, op Op) StepOut {
 	out.Viol = append(out.Viol, v...)
 	out.Touched = touched
 	if exp != nil {
-		out.Viol = append(out.Viol, compareExpected(exp, post, pre, touched, op)...)
+		out.Viol = append(out.Viol, compareExpected(exp, post, pre, touched, op, w.Skewed)...)
 	}
 	out.Viol = append(out.Viol, CheckInvariants(post)...)
 	out.Viol = append(out.Viol, checkLogGrowth(pre, post, op)...)
@@ -663,7 +673,7 @@ func keys(m map[string]bool) []string {
 
 // compareExpected diffs the model's expected state with the observed one and attributes
 // every difference to a property.
-func compareExpected(exp, post, pre *Snapshot, touched map[string]bool, op Op) []Violation {
+func compareExpected(exp, post, pre *Snapshot, touched map[string]bool, op Op, skewed bool) []Violation {
 	var out []Violation
 	home := homeProp(op)
 	wholeOp := ""
@@ -711,6 +721,11 @@ func compareExpected(exp, post, pre *Snapshot, touched map[string]bool, op Op) [
 		if touched[id] {
 			o.IgnoreUpdatedAt, o.IgnoreClaimedAt = true, true
 		}
+		if skewed && op.Kind == "compact" {
+			// with time stamps that do not grow along the log, which of an item's events is
+			// "the latest" is not defined by the property (C05 speaks of logs the CLI produces)
+			o.IgnoreUpdatedAt = true
+		}
 		for _, d := range diffItem(e, p, o) {
 			field := ""
 			if parts := strings.SplitN(d, " ", 3); len(parts) >= 2 {
@@ -733,7 +748,7 @@ func compareExpected(exp, post, pre *Snapshot, touched map[string]bool, op Op) [
 			out = append(out, Violation{prop, "expected vs observed: " + d})
 		}
 		if touched[id] {
-			if pp := pre.Items[id]; pp != nil && timeLess(p.UpdatedAt, pp.UpdatedAt) {
+			if pp := pre.Items[id]; pp != nil && !skewed && timeLess(p.UpdatedAt, pp.UpdatedAt) {
 				out = append(out, Violation{"C12", fmt.Sprintf("%s: updated_at went backwards", id)})
 			}
 			if (p.ClaimedBy != "") != (p.ClaimedAt != "") {
@@ -889,7 +904,7 @@ func (w *World) forkCompact(pre *Snapshot, op Op) StepOut {
 		bad("store unreadable after compact: %v", err)
 		return out
 	}
-	for _, d := range DiffSnap(pre, snapT, DiffOpts{RootA: w.Root, RootB: tw.Root}) {
+	for _, d := range DiffSnap(pre, snapT, DiffOpts{RootA: w.Root, RootB: tw.Root, IgnoreUpdatedAt: w.Skewed}) {
 		bad("compact changed what a reader sees: %s", d)
 	}
 	for _, inc := range snapT.Inconsistent {
@@ -1004,7 +1019,7 @@ func (w *World) stepTwin(op Op, main *StepOut) []Violation {
 			bad("after `%s`: item %s exists in only one of the two stores (this one and the compacted copy)", strings.Join(cmd.Args, " "), id)
 			continue
 		}
-		o := DiffOpts{RootA: w.Root, RootB: tw.Root}
+		o := DiffOpts{RootA: w.Root, RootB: tw.Root, IgnoreUpdatedAt: w.Skewed}
 		if w.TouchedSince[id] {
 			o.IgnoreUpdatedAt, o.IgnoreClaimedAt, o.IgnoreCreatedAt, o.IgnoreUUID, o.IgnoreResultTS = true, true, true, true, true
 		}
@@ -1064,4 +1079,123 @@ func (w *World) stepChop(pre *Snapshot, op Op) StepOut {
 	}
 	out.Post = post
 	return out
+}
+
+// stepDebris leaves behind what a killed process can leave that is not state: a temp file
+// of a whole-file rewrite (a byte prefix of the log cut anywhere, a longer file, a longer
+// file ending in garbage) or an unparsable fragment after the log's last newline. Nothing
+// observable may change, now or through whatever command comes next (the next step's own
+// oracle judges that).
+func (w *World) stepDebris(pre *Snapshot, op Op) StepOut {
+	out := StepOut{Op: op, Decision: "DEBRIS", Accepted: true, Post: pre}
+	path := LogPath(w.Root)
+	b, err := os.ReadFile(path)
+	if err != nil || len(b) < 40 {
+		out.Labels = append(out.Labels, "debris.skipped")
+		return out
+	}
+	lines, rest := LogLines(b)
+	switch op.FaultKind {
+	case "fragment":
+		if rest != "" || len(lines) == 0 {
+			out.Labels = append(out.Labels, "debris.skipped")
+			return out
+		}
+		last := lines[len(lines)-1]
+		if len(last) < 12 {
+			out.Labels = append(out.Labels, "debris.skipped")
+			return out
+		}
+		k := 1 + int(op.Frac*float64(len(last)-2))
+		f, err := os.OpenFile(path, os.O_WRONLY|os.O_APPEND, 0o644)
+		if err != nil {
+			out.Labels = append(out.Labels, "debris.skipped")
+			return out
+		}
+		_, _ = f.WriteString(last[:k])
+		f.Close()
+		out.Labels = append(out.Labels, "debris.fragment_after_last_newline")
+	case "tmp_prefix":
+		_ = os.WriteFile(path+".tmp", b[:int(op.Frac*float64(len(b)))], 0o644)
+		out.Labels = append(out.Labels, "debris.temp_file_prefix_of_log")
+	case "tmp_bigger":
+		_ = os.WriteFile(path+".tmp", append(append([]byte{}, b...), b...), 0o644)
+		out.Labels = append(out.Labels, "debris.temp_file_longer_than_log")
+	default:
+		c := append(append([]byte{}, b...), b[:len(b)/2+int(op.Frac*float64(len(b)/2-1))]...)
+		_ = os.WriteFile(path+".tmp", c, 0o644)
+		out.Labels = append(out.Labels, "debris.temp_file_longer_ending_mid_line")
+	}
+	post, err := TakeSnapshot(w.Root)
+	if err != nil {
+		out.Viol = append(out.Viol, Violation{"C03", "store unreadable with crash debris (" + op.FaultKind + ") lying around: " + err.Error()})
+		out.Post = nil
+		return out
+	}
+	for _, d := range DiffSnap(pre, post, DiffOpts{}) {
+		out.Viol = append(out.Viol, Violation{"C03", "crash debris (" + op.FaultKind + ") changes what readers see: " + d})
+	}
+	out.Post = post
+	return out
+}
+
+// stepRedate moves the time stamps of the last command's events into the future: that
+// command ran on a host whose clock is ahead and its lines came over by git. Replay goes by
+// log order, so nothing but the time fields (and the orders derived from creation time)
+// may change; what the store shows afterwards is the new reference, and every later command
+// - stamped with the real, now "older" clock - is judged by its own oracle as usual.
+func (w *World) stepRedate(pre *Snapshot, op Op) StepOut {
+	out := StepOut{Op: op, Decision: "REDATE", Accepted: true, Post: pre}
+	by := []time.Duration{95 * time.Minute, 26 * time.Hour, 40 * 24 * time.Hour}[int(op.Frac)%3]
+	n, ok := redateLastCommand(w.Root, by)
+	if !ok {
+		out.Labels = append(out.Labels, "redate.skipped")
+		return out
+	}
+	w.Skewed = true
+	out.Labels = append(out.Labels, "last_command_redated_into_the_future")
+	post, err := TakeSnapshot(w.Root)
+	if err != nil {
+		out.Viol = append(out.Viol, Violation{"C12", "store unreadable after the last command's time stamps were moved forward: " + err.Error()})
+		out.Post = nil
+		return out
+	}
+	for _, d := range DiffSnap(pre, post, DiffOpts{IgnoreUpdatedAt: true, IgnoreClaimedAt: true, IgnoreCreatedAt: true, IgnoreResultTS: true, IgnoreOrder: true}) {
+		out.Viol = append(out.Viol, Violation{"C12", fmt.Sprintf("moving the time stamps of the last %d event(s) forward changed more than time fields: %s", n, d)})
+	}
+	out.Post = post
+	return out
+}
+
+// redateLastCommand adds by to every time stamp of the log's last group of lines that
+// share the final line's "ts" (one command stamps all its events alike). The log must end
+// in a newline.
+func redateLastCommand(root string, by time.Duration) (n int, ok bool) {
+	path := LogPath(root)
+	b, err := os.ReadFile(path)
+	lines, rest := LogLines(b)
+	if err != nil || rest != "" || len(lines) == 0 {
+		return 0, false
+	}
+	var last LogEvent
+	if json.Unmarshal([]byte(lines[len(lines)-1]), &last) != nil {
+		return 0, false
+	}
+	ts, good := timeParse(last.TS)
+	if !good {
+		return 0, false
+	}
+	shifted := ts.Add(by).UTC().Format(time.RFC3339Nano)
+	for i := len(lines) - 1; i >= 0; i-- {
+		var ev LogEvent
+		if json.Unmarshal([]byte(lines[i]), &ev) != nil || ev.TS != last.TS {
+			break
+		}
+		lines[i] = strings.ReplaceAll(lines[i], `"`+last.TS+`"`, `"`+shifted+`"`)
+		n++
+	}
+	if err := os.WriteFile(path, []byte(strings.Join(lines, "\n")+"\n"), 0o644); err != nil {
+		return 0, false
+	}
+	return n, true
 }
